@@ -82,6 +82,43 @@ func AddDirectedMetaOps(ops []Op, target string) []Op {
 	return out
 }
 
+// AddDirectedVolumeOps weaves into the middle of a (prepared) history (a) a BACK-DATED transaction in which one
+// (account, asset) pair is touched by three postings (credited, debited, credited again) and (b) a later-dated one on
+// the same pair: reads as of an instant then discriminate the order in which the moves of one transaction are
+// recorded (insertion-date volumes) and the propagation of a back-dated insert to later-dated moves (effective volumes).
+func AddDirectedVolumeOps(ops []Op, acct string) []Op {
+	if len(ops) < 4 {
+		return ops
+	}
+	mid := len(ops) / 2
+	now := ops[mid].Now
+	back := now - 4
+	if back < 2 {
+		back = 2
+	}
+	a := Op{K: "create", L: ops[0].L, Now: now, Ts: back, Ps: []Posting{
+		{S: "world", D: acct, As: "USD", N: 3},
+		{S: acct, D: "orders:1", As: "USD", N: 1},
+		{S: "world", D: acct, As: "USD", N: 2},
+	}}
+	a.Norm()
+	b := Op{K: "create", L: ops[0].L, Now: now, Ps: []Posting{
+		{S: "world", D: acct, As: "USD", N: 4},
+		{S: acct, D: "world", As: "USD", N: 1},
+	}}
+	b.Norm()
+	c := Op{K: "create", L: ops[0].L, Now: now, Ps: []Posting{
+		{S: "world", D: acct, As: "USD", N: 1},
+		{S: acct, D: "orders:1", As: "USD", N: 1},
+	}}
+	c.Norm()
+	out := make([]Op, 0, len(ops)+3)
+	out = append(out, ops[:mid]...)
+	out = append(out, b, a, c) // a later-dated one, then the back-dated insert, then a later-dated one again
+	out = append(out, ops[mid:]...)
+	return out
+}
+
 var (
 	rdAddrs    = []string{"users:a:main", "users:b:main", "users:a", "orders:1", "orders:2:main", "world", "nobody"}
 	rdPatterns = []string{
@@ -1154,7 +1191,8 @@ func (g *ReadGen) Read() ReadQ {
 		q.Pit = g.pit()
 		q.Ins = g.R.Intn(2) == 0
 		// aggregated balances of ALL accounts are zero per asset (double entry): mostly filtered, so that they discriminate
-		q.Filter = g.maybeFilter("agg", 85)
+		// (unfiltered ones as of an instant still decide conservation: Inv_C01_ConservationAt)
+		q.Filter = g.maybeFilter("agg", 70)
 	case r < 58:
 		q.Res = "accounts"
 		q.Pit = g.pit()
